@@ -49,9 +49,10 @@ VARIABLES
     n,      \* requests processed
     esc,    \* the last request touched a location outside the root
     lbl,    \* last request and its predicted outcome (for replay)
-    hist    \* all requests so far
+    hist,   \* all requests so far
+    itree   \* the initial tree (constant along a behaviour; for replay)
 
-vars == <<fs, n, esc, lbl, hist>>
+vars == <<fs, n, esc, lbl, hist, itree>>
 view == <<fs, n, esc>>
 
 Base == (<<>> :> DirNode) @@ (Top :> DirNode) @@ (RootLoc :> DirNode)
@@ -226,7 +227,8 @@ TreesSmall == {TreeEmpty}
 TreesAll   == {TreeEmpty, TreeA, TreeAB, TreeAA}
 
 Init ==
-    /\ fs \in {Canon(Base @@ t) : t \in InitTrees}
+    /\ itree \in InitTrees
+    /\ fs = Canon(Base @@ itree)
     /\ n = 0 /\ esc = FALSE
     /\ lbl = <<"init">> /\ hist = <<>>
 
@@ -244,7 +246,8 @@ Step(op, p, q) ==
     /\ esc' = \E l \in r.touched : ~Under(RootLoc, l)
     /\ lbl' = <<op, p, q, r.st, esc'>>
     /\ hist' = Append(hist, <<op, p, q>>)
-    /\ (EmitEsc /\ esc' => PrintT(<<"ESC", hist'>>))
+    /\ UNCHANGED itree
+    /\ (EmitEsc /\ esc' => PrintT(<<"ESC", hist', itree>>))
 
 Next ==
     /\ n < MaxReq /\ ~esc
